@@ -37,24 +37,39 @@ def r17_1(repo: Repo) -> RuleResult:
         target = g.node_for(enclosing_stmt(call, pm))
         sorts = []
         rebinds = []
+        skip_tests = []  # `if not O.has_sorted_indices:` - the false edge may skip the sort
         for n in g.nodes:
             if n.kind == "stmt" and isinstance(n.ast, ast.Expr) and isinstance(n.ast.value, ast.Call) \
                     and norm(n.ast.value.func) == "%s.sort_indices" % obj:
                 sorts.append(n.id)
-            if n.kind == "stmt" and isinstance(n.ast, ast.Assign) and any(norm(t) == obj for t in n.ast.targets):
-                rebinds.append(n.id)
+            elif n.kind == "stmt" and isinstance(n.ast, ast.Assign) and any(norm(t) == obj for t in n.ast.targets):
+                v = n.ast.value
+                if isinstance(v, ast.Call) and norm(v.func) == "%s.sorted_indices" % obj:
+                    sorts.append(n.id)  # O = O.sorted_indices(): a sorted copy
+                else:
+                    rebinds.append(n.id)
+            elif n.kind == "test" and norm(n.ast) in ("not %s.has_sorted_indices" % obj, "%s.has_sorted_indices == False" % obj):
+                skip_tests.append(n.id)
         construct = "column_weights(%s.indptr, %s.indices, %s.data)" % (obj, obj, obj)
-        if not sorts or not g.must_pass(sorts, target):
+        ok = bool(sorts) and g.must_pass(sorts + skip_tests, target)
+        if ok:
+            # every path leaving a skip test through its *true* edge must still sort
+            for t in skip_tests:
+                for succ, lab in g.succ[t]:
+                    if lab == "true" and not g.must_pass(sorts, target, start=succ):
+                        ok = False
+        if not ok:
             rr.bad(f, construct,
-                   "some path reaches the binary-search kernel without `%s.sort_indices()`: with unsorted column indices "
-                   "np.searchsorted returns the wrong position and the weights depend on the storage order" % obj, call.lineno)
+                   "some path reaches the binary-search kernel without sorting `%s`'s indices (sort_indices() / sorted_indices(), "
+                   "skippable only when has_sorted_indices is already true): with unsorted column indices np.searchsorted returns "
+                   "the wrong position and the weights depend on the storage order" % obj, call.lineno)
             continue
         # the object must not be re-bound between the sort and the call
         stale = [r for r in rebinds if any(r in g.reachable(s) for s in sorts) and target in g.reachable(r)]
         if stale:
-            rr.bad(f, construct, "`%s` is re-bound after sort_indices() and before the kernel call" % obj, call.lineno)
+            rr.bad(f, construct, "`%s` is re-bound after its indices were sorted and before the kernel call" % obj, call.lineno)
         else:
-            rr.ok(f, construct, "every path passes %s.sort_indices() first" % obj, call.lineno)
+            rr.ok(f, construct, "every path sorts %s's indices first%s" % (obj, " (or finds has_sorted_indices true)" if skip_tests else ""), call.lineno)
     return rr
 
 
